@@ -41,6 +41,11 @@ def django_bases(env):
         ("annotated", lambda: P.objects.annotate(twice=F("a") * 2, nkids=Count("kids")), "annot"),
         ("annotated + filtered on annotation", lambda: P.objects.annotate(nk=Count("kids")).filter(nk__gte=1), None),
         ("values-restricted (only)", lambda: P.objects.only("id", "a"), None),
+        # managers other than the default one: a secondary manager with its own conditions, a related manager (rows of ONE owner), a many-to-many manager
+        ("secondary manager P.live", lambda: P.live, None),
+        ("secondary manager P.live.all()", lambda: P.live.all(), None),
+        ("related manager o1.ps", lambda: env["O"].objects.get(id=1).ps, None),
+        ("many-to-many manager tag1.ps", lambda: env["Tag"].objects.get(id=1).ps, None),
     ]
 
 def sa_bases(env, style):
@@ -209,7 +214,7 @@ def run(ctx):
         sat = sat_ids(db, FILTERS)
         # Django
         for bname, mk, tag in django_bases(denv):
-            base_ids = dj_ids(mk() if bname != "Manager" else mk().all(), ordered=(tag == "order"))
+            base_ids = dj_ids(mk().all(), ordered=(tag == "order"))
             for f in FILTERS:
                 ctx.evaluations += 1
                 try:
